@@ -23,19 +23,28 @@ LEVEL = "proof"
 TRUSTED = [
     "Model/IoOp.v is hand-written after src/io.c (perform, deliver_data, stream/disk result tables, dispose, get_error); tied by "
     "feeding it the system-call results recorded by the guarded note of _dispatch_operation_perform and requiring it to "
-    "reproduce every handler invocation (done, size, error) of every operation of every scenario",
-    "kernel behaviour of the descriptor (a read/write returns at most the requested length; write never returns 0 for a "
-    "non-zero length) is a hypothesis of the theorems (run_ok / no_write_zero)",
-    "queue semantics are used, not re-proved: op_q is a serial queue (handler invocations of one operation do not overlap and "
-    "run in the order they were submitted: C02), the stream queue is serial, barrier/cleanup ordering relies on "
-    "groups/suspend/resume (C06/C07); those two clauses are checked by the end-to-end oracle only",
+    "reproduce every handler invocation (done, size, error) of every operation of every scenario (explain_op; the search "
+    "over placements of stop / timer / cleanup events has a node budget: a cut-off counts as a mismatch)",
+    "kernel behaviour of the descriptor is a hypothesis of the theorems: a read/write returns at most the requested length "
+    "(run_ok / wres_ok), write never returns 0 for a non-zero length and errno is non-zero on failure (wres_ok)",
+    "the stream list model (pick_next / complete_op / cleanup_ops, theorems C14_stream_order, C14_stream_io_one_at_a_time) and "
+    "the barrier bookkeeping model (bstep, theorems C14_barrier_between, C14_barrier_not_stranded) are hand-written after "
+    "io.c:1823-1986 and io.c:808-832/1151-1191/1112-1122; they are not replayed event by event: their clauses are checked on "
+    "every run by the end-to-end oracle (completion order, system calls of one operation before those of the next, barrier "
+    "after every system call of earlier and before any of later operations)",
+    "queue and group semantics are used, not re-proved: serial queues are FIFO and run one block at a time (C02: op_q, stream "
+    "queue, channel queue, barrier queue), a suspended queue runs nothing (C06), the group counts outstanding enters and "
+    "submits a notification registered at count zero at once (C07); the leave that reaches zero is modelled as coded "
+    "(detaches the list in a later step only when HAS_NOTIFS was set in the state its atomic add returned)",
+    "C14_cleanup_once_after_handlers is not proved (fd_entry reference counting, close_queue resume chain); oracle only",
     "a data object is modelled by its region list; create_subrange = trimming the region list (validated for C13)",
     "for regular files (disk path) a non-strict interval tick that races with _dispatch_operation_perform on another thread is "
     "assumed to act before or after perform's update of buf_len/total",
     "posix_memalign does not fail",
 ]
 ASSUMPTIONS = ["Linux build: EWOULDBLOCK == EAGAIN; streams for pipes/sockets, disk path for regular files",
-               "dispatch_io_defaults.chunk_size >= 1"]
+               "dispatch_io_defaults.chunk_size >= 1",
+               "operations are distinct objects (srun_ok / brun_ok: an enqueued / submitted item is not already present)"]
 
 U64 = 1 << 64
 SMAX = U64 - 1
@@ -378,10 +387,37 @@ def gen_ebadf(rng, sid):
     return s
 
 
+def gen_heldleave(rng, sid):
+    """the dispatch_group_leave that brings the barrier group to zero is held after its atomic add (schedule
+    perturbation through the DISPATCH_VERIF hook) while another operation is enqueued and a barrier registers"""
+    s = Scn(sid, 256)
+    s.kind = "pipe_r"
+    s.rbase = rng.range(0, 1 << 20)
+    s.add("fd pipe_r 0 %d" % s.rbase)
+    s.add("chan")
+    s.add("holdleave %d" % rng.choice([20000, 40000]))
+    s.op(False, 10)
+    if rng.chance(1, 2):
+        s.barrier(0)
+    s.add("pw 10")
+    s.add("sleep 6000")
+    s.op(False, 100)
+    s.barrier(0)
+    s.add("sleep 60000")
+    s.add("holdleave 0")
+    s.add("pw 100")
+    s.add("wait 1")
+    s.op(False, 5)
+    s.add("pw 5")
+    s.add("pc")
+    s.add("end")
+    return s
+
+
 def scenarios(ctx):
     rng = ctx.rng
     n = 100 if ctx.tier == "quick" else 1200
-    out = [gen_ebadf(rng, 100000 + k) for k in range(6)]
+    out = [gen_ebadf(rng, 100000 + k) for k in range(6)] + [gen_heldleave(rng, 100100 + k) for k in range(3)]
     for i in range(n):
         r = i % 10
         big = (i % 37 == 5)
